@@ -96,6 +96,15 @@ pub enum Step {
     Abandon {
         ep: String,
     },
+    /// an accept call that is polled ONCE (it registers with the dispatcher) and then just held - like the losing
+    /// branch of a `select!` or a call under a timeout; `accept_held_drop` lets go of it without polling it again
+    AcceptHeld {
+        sock: String,
+        ep: String,
+    },
+    AcceptHeldDrop {
+        ep: String,
+    },
     Cancel {
         sock: String,
     },
